@@ -27,7 +27,8 @@ impl Process for Recorder {
         let (d, die) = match &msg {
             Message::Regular { from, body } => (
                 json!({"k": "regular", "from": from.as_ref().map(|p| denote(&OwnedTerm::Pid(p.clone()))), "body": denote(body)}),
-                matches!(body, OwnedTerm::Atom(a) if a.as_str() == "die"),
+                matches!(body, OwnedTerm::Atom(a) if a.as_str() == "die")
+                    || matches!(body, OwnedTerm::Tuple(e) if matches!(e.first(), Some(OwnedTerm::Atom(a)) if a.as_str() == "die")),
             ),
             Message::Exit { from, reason } => (json!({"k": "exit", "from": denote(&OwnedTerm::Pid(from.clone())), "reason": denote(reason)}), false),
             Message::MonitorExit { monitored, reference, reason } => (
